@@ -1,6 +1,7 @@
 package main
 
 import (
+		"go/token"
 	"fmt"
 	"go/types"
 	"sort"
@@ -75,7 +76,7 @@ func handlerMutates(fn *ssa.Function, depth int, seen map[*ssa.Function]bool) (b
 func runC16(r *Run) {
 	P := r.P
 	r.Rule("R1", "TABLE.abi-switch-istx: ABI function names = Run switch case constants; IsTransaction ⊆ cases; a handler from which a Cosmos effect or StateDB mutator is reachable ⇔ its method is in IsTransaction")
-	r.Rule("R2", "FLOW.native-message: each transaction handler calls exactly the tabled message-server/keeper method, error-checked, on every path to a success exit (per-element loops are R5's); the message argument is the decoder's first result with no field store in the handler; the message server is constructed by the module's NewMsgServerImpl; in the decoder the returned message depends on the returned address")
+	r.Rule("R2", "FLOW.native-message: before the native call a transaction handler fails only on decoder errors, identity/grant checks and tabled shared pre-conditions (no rejection of its own); each transaction handler calls exactly the tabled message-server/keeper method, error-checked, on every path to a success exit (per-element loops are R5's); the message argument is the decoder's first result with no field store in the handler; the message server is constructed by the module's NewMsgServerImpl; in the decoder the returned message depends on the returned address")
 	r.Rule("R3", "PATH.gas: in each Run every success exit is preceded by contract.UseGas(GasConsumed − initialGas) whose false result is a failure exit; RunSetup installs a gas meter limited by contract.Gas and returns the gas consumed before the handler as initialGas")
 
 	models := wiredPrecompiles(r)
@@ -160,6 +161,87 @@ func runC16(r *Run) {
 				w := PathQuery{Fn: h.Fn, Block: isDisp, Target: isSuccessExit}.Search()
 				r.Check(w == nil && errHandled(disp), "R2", inst+"#native-call-on-every-success", P.Pos(instrPos(disp)), "every success exit is preceded by the error-checked native call",
 					"a success exit of the handler is reachable without the (error-checked) call of "+want+": for some inputs the precompile reports success, emits its event and charges gas while the native message would have changed (or refused to change) the state", P.witness(w)...)
+			}
+			// no rejection of its own: before the native call the handler may fail only for the tabled reasons
+			{
+				allowedErrSrc := func(c *ssa.Call) bool {
+					ci := callInfo(c)
+					if ci.Static != nil && strings.Contains(fnPkgPath(ci.Static), "/precompiles/") {
+						return true // argument decoders and the authorization helpers of the precompile packages
+					}
+					switch ci.Name {
+					case "ValAddressFromBech32", "AccAddressFromBech32", "UseGas":
+						return true
+					}
+					return false
+				}
+				isAddr := func(v ssa.Value) bool {
+					n := namedName(v.Type())
+					return n == "Address" || n == "AccAddress" || n == "ValAddress"
+				}
+				nPre := 0
+				for _, b := range h.Fn.Blocks {
+					ifi, ok := lastIf(b)
+					if !ok || !blockReachesMemo(b, disp.Block()) || b == disp.Block() {
+						continue
+					}
+					// a deciding branch: one side cannot reach the dispatch any more
+					decides := false
+					for _, sc := range b.Succs {
+						if sc != disp.Block() && !blockReachesMemo(sc, disp.Block()) {
+							decides = true
+						}
+					}
+					if !decides {
+						continue
+					}
+					nPre++
+					cond := ifi.Cond
+					for {
+						if u, ok := cond.(*ssa.UnOp); ok && u.Op == token.NOT {
+							cond = u.X
+							continue
+						}
+						break
+					}
+					okKind, why := false, "an unclassified condition"
+					switch x := cond.(type) {
+					case *ssa.BinOp:
+						for _, o := range []ssa.Value{x.X, x.Y} {
+							if ex, ok := o.(*ssa.Extract); ok {
+								if c, ok := ex.Tuple.(*ssa.Call); ok && allowedErrSrc(c) && (isErrorType(ex.Type()) || true) {
+									okKind = true
+								}
+							}
+							if c, ok := o.(*ssa.Call); ok && allowedErrSrc(c) {
+								okKind = true
+							}
+						}
+						if (x.Op == token.EQL || x.Op == token.NEQ) && isAddr(x.X) && isAddr(x.Y) {
+							okKind = true // identity comparison (C04 R1)
+						}
+						if h.Method == "claimRewards" && (x.Op == token.LSS || x.Op == token.GTR) {
+							okKind = true // maxRetrieve bound of the batch method (no native counterpart)
+						}
+						why = "the comparison " + x.X.Name() + " " + x.Op.String() + " " + x.Y.Name()
+					case *ssa.Call:
+						n := callInfo(x).Name
+						okKind = n == "HasChannel" // ibc-go's sendTransfer fails on a missing channel too
+						why = "the call " + n + "()"
+					case *ssa.Extract:
+						if c, ok := x.Tuple.(*ssa.Call); ok && allowedErrSrc(c) {
+							okKind = true
+						}
+					case *ssa.Phi:
+						okKind = true // short-circuit of classified conditions is decided at its leaves
+					}
+					if !okKind {
+						r.Bad("R2", fmt.Sprintf("%s#no-extra-rejection-%d", inst, nPre), P.Pos(instrPos(ifi)), "before calling "+want+" the handler can fail on "+why+", which is not a decoder error, an identity or grant check, or a tabled pre-condition the native message shares: the precompile refuses inputs the native message accepts (or the two disagree on which error wins)")
+					}
+				}
+				if nPre > 0 {
+					r.OK("R2", inst+"#pre-dispatch-branches-classified", P.Pos(fnPos(h.Fn)), fmt.Sprintf("%d deciding branches before the native call examined", nPre))
+				}
 			}
 			// message argument = decoder result, unmodified
 			ci := callInfo(disp)
